@@ -6,6 +6,7 @@
     E <Class> <opt>* :: <ops> ## <ops>           run two histories on two fresh objects, then `a == b`
     F <function> <arg>*                          a pure helper function
   Ops:  pack <v>* · unpack <xhex> <v>* · set <field> <v> · obs · iter · call <method> <v>*
+        · len · getitem <int>        (container protocol: `len(obj)`, `obj[i]`; like `call`, they may change the state)
   Answers (histories): results joined by '|' :
     ok:<val> | err:<kind> | ok | <obs value> | ?      ('?' = state unspecified after an earlier error,
                                                        until the next successful unpack)
@@ -24,6 +25,12 @@ structure Codec where
   obs : σ → Val
   eq : σ → σ → R Bool
   call : σ → String → List Val → Option (σ × R Val) := fun _ _ _ => none
+  /-- `len(obj)` (`__len__`); `none` = the class is not enrolled for the op (answer `bad-op`) -/
+  len : σ → Option (σ × R Val) := fun _ => none
+  /-- `obj[i]` (`__getitem__`) for an integer index -/
+  getitem : σ → Int → Option (σ × R Val) := fun _ _ => none
+  /-- effect of `for x in obj: pass` on the state (the classes that keep an iteration cursor `_index`) -/
+  iter : σ → σ := fun s => s
 
 def resStr : R Val → String
   | .ok v => "ok:" ++ toString v
@@ -69,12 +76,31 @@ def stepOp (c : Codec) (s : c.σ) (dirty : Bool) (op : String) : c.σ × Bool ×
         | .ok _ => (s', false, "ok")
         | .error e => (s', true, "err:" ++ e.name)
   | ["obs"] => if dirty then (s, true, "?") else (s, false, toString (c.obs s))
-  | ["iter"] => (s, dirty, if dirty then "?" else "ok")   -- `for x in obj: pass`: no observable effect
+  | ["iter"] => (c.iter s, dirty, if dirty then "?" else "ok")   -- `for x in obj: pass`: at most the cursor moves
   | "call" :: m :: args =>
     match parseVals args with
     | none => (s, dirty, "bad-op")
     | some vs =>
       match c.call s m vs with
+      | none => (s, dirty, "bad-op")
+      | some (s', r) =>
+        if dirty then (s', true, "?") else
+        match r with
+        | .ok _ => (s', false, resStr r)
+        | .error _ => (s', true, resStr r)
+  | ["len"] =>
+    match c.len s with
+    | none => (s, dirty, "bad-op")
+    | some (s', r) =>
+      if dirty then (s', true, "?") else
+      match r with
+      | .ok _ => (s', false, resStr r)
+      | .error _ => (s', true, resStr r)
+  | ["getitem", i] =>
+    match i.toInt? with
+    | none => (s, dirty, "bad-op")
+    | some k =>
+      match c.getitem s k with
       | none => (s, dirty, "bad-op")
       | some (s', r) =>
         if dirty then (s', true, "?") else
